@@ -264,6 +264,7 @@ def one_case(ctx, M, keys, case, verbose=False):
         try:
             if bytes(pc.signature_info.validity_period.not_before) == (datetime(1970, 1, 1) + timedelta(seconds=nb_alt)).strftime(FMT).encode():
                 nb = nb_alt
+                years_ok = all(SEC_1000 <= x <= SEC_9999 for x in (nb, na))
         except Exception:   # noqa
             pass
     if signer is None:
@@ -281,7 +282,7 @@ def one_case(ctx, M, keys, case, verbose=False):
             ctx.violation(fn, 'name-prefix', 'the certificate name does not start with the key name followed by two components', c)
         elif pname[-2] != issuer:
             ctx.violation(fn, 'name-issuer', f'issuer-id component is {pname[-2].hex()}, expected {issuer.hex()}', c)
-        elif pname[-1] != bytes(Component.from_version(ts)):
+        elif pname[-1] != version_component(ts):
             ctx.violation(fn, 'name-version', 'last component is not the version made from the current timestamp', c)
         if pc.content is None or bytes(pc.content) != pub:
             ctx.violation(fn, 'content', 'the content is not the given public key', c)
@@ -336,6 +337,14 @@ def one_case(ctx, M, keys, case, verbose=False):
 
 SEC_1000 = instant(datetime(1000, 1, 1))
 SEC_9999 = instant(datetime(9999, 12, 31, 23, 59, 59))
+
+
+def version_component(ts):
+    """Type 54 around the shortest of the 1/2/4/8-octet big-endian forms; None when there is none"""
+    for w in (1, 2, 4, 8):
+        if 0 <= ts < (1 << (8 * w)):
+            return G.tlv(54, ts.to_bytes(w, 'big'))
+    return None
 
 
 def wf_component(c):
